@@ -443,7 +443,11 @@ class Evaluator:
         if r[0] == 'func': return Ref('func', r[1], r[2], r[2].name)
         if r[0] == 'class': return Ref('class', r[1], r[2], r[2].name)
         if r[0] == 'mod': return Ref('module', r[1], None, r[1].short)
-        if r[0] == 'ext': return Ref('ext', None, None, r[1])
+        if r[0] == 'ext':
+            if r[1] in ('math.pi', 'numpy.pi', 'cmath.pi', 'scipy.pi'): return Poly.atom('pi')
+            if r[1] in ('math.inf', 'numpy.inf', 'cmath.inf'): return Poly.atom('inf')
+            if r[1].split('.')[0] in ('math', 'cmath') and r[1].split('.')[-1] in NPFUN | {'degrees', 'radians', 'phase'}: return Ref('npfun', None, None, SYN.get(r[1].split('.')[-1], r[1].split('.')[-1]))
+            return Ref('ext', None, None, r[1])
         if r[0] == 'unresolved': return Opq('?', f'unresolved {r[1].short}.{r[2]}')
         if r[0] == 'member': return Ref('member', r[1], r[2], getattr(r[2], 'name', ''))
         return None
@@ -1126,21 +1130,15 @@ class Evaluator:
                     return pref * (s.npcall('cos', [x], {}) + Poly.const(0, 1) * s.npcall('sin', [x], {}))
                 return Poly.atom(('exp', a.key()))
             if name == 'conj': return s.conj(a)
-            if name == 'real':
-                if s.is_real(a): return a
+            if name in ('real', 'imag'):
+                # linear over the reals:  re(c m) = re(c) re(m) - im(c) im(m) ;  im(c m) = re(c) im(m) + im(c) re(m)
                 out = Poly()
                 for k, (x, y) in a.t.items():
                     mono = Poly({k: (F(1), F(0))})
-                    if s.is_real(mono): out = out + Poly({k: (x, F(0))})
-                    else: return Poly.atom(('real', a.key()))
-                return out
-            if name == 'imag':
-                if s.is_real(a): return Poly()
-                out = Poly()
-                for k, (x, y) in a.t.items():
-                    mono = Poly({k: (F(1), F(0))})
-                    if s.is_real(mono): out = out + Poly({k: (y, F(0))})
-                    else: return Poly.atom(('imag', a.key()))
+                    if s.is_real(mono): re_m, im_m = mono, Poly()
+                    else: re_m, im_m = Poly.atom(('real', mono.key())), Poly.atom(('imag', mono.key()))
+                    if name == 'real': out = out + re_m.scale(x) - im_m.scale(y)
+                    else: out = out + im_m.scale(x) + re_m.scale(y)
                 return out
             if name == 'abs':
                 c = a.real_const()
